@@ -42,6 +42,7 @@ def run(chk):
                 chk.saw(fn)
                 R = Region(fn, p)
                 bad = []
+                bitpacked = []
                 for n, t, (desc, src), kind in R.shared_writes():
                     nwrites += 1
                     full = src if src is not None else t
@@ -56,6 +57,12 @@ def run(chk):
                         counts["reduction"] += 1
                         continue
                     if R.mentions_loopvar(full) or R.mentions_loopvar(t):
+                        # distinct elements are distinct memory locations - except in bit-packed containers: neighbouring entries of a
+                        # std::vector<bool> share a word, element writes from different threads are a data race
+                        packed = [x for x in walk(t) if "vector<bool" in (x.get("t") or "") and x.get("k") in ("DeclRefExpr", "MemberExpr") and (x.get("var") or x.get("field")) and not x.get("fn")]
+                        if packed and ex is None:
+                            bitpacked.append((n, t, packed[0]))
+                            continue
                         counts["private-alias/by-loopvar"] += 1
                         continue
                     # a call whose *other* arguments select the part of the shared object: only on the justified list
@@ -65,12 +72,16 @@ def run(chk):
                         chk.note("C13-D1.sharing", fn.loc(n), "justified indirect write %s: %s" % (txt(n)[:60], just[0][2]))
                         continue
                     bad.append((n, t, kind))
+                for n, t, pk in bitpacked:
+                    chk.ob("C13-D1.sharing", fn.key, "element write %s" % txt(n)[:70], False, fn.loc(n),
+                           "`%s` is a std::vector<bool>: entries indexed by different loop iterations share a machine word, concurrent element writes lose flags" % txt(pk)[:40],
+                           "a byte-sized element type, or critical/atomic")
                 for n, t, kind in bad:
                     what = "container mutation" if kind == "container" else "write"
                     chk.ob("C13-D1.sharing", fn.key, "%s %s" % (what, txt(n)[:70]), False, fn.loc(n),
                            "shared `%s` is modified by every thread without critical/atomic and the target does not depend on the worksharing loop variable" % txt(strip(t))[:50],
                            "thread-private target, loop-variable subscript, critical/atomic, reduction")
-                if not bad:
+                if not bad and not bitpacked:
                     chk.ob("C13-D1.sharing", fn.key, "region @%d (%s)" % (p.get("l", 0), p["omp"]), True, fn.loc(p), "all shared writes classified")
     chk.floor("C13-D1.sharing", nreg, 140, "outermost parallel regions (all instantiations)")
     chk.floor("C13-D1.sharing", nwrites, 200, "shared writes classified")
